@@ -255,7 +255,9 @@ def oracle_wrap(ctx, case, kind, lP, rP, lL, rL, bu, v, res):
     if not well_conditioned(kind, lL, rL, v):
         # float overflow/underflow inside the code: outside the working domain of the in-track oracle
         ctx.count('ill_conditioned')
-        if res[0] == 'err':
+        if res == ('err', 'LineTransBaseMath'):
+            ctx.count('overflow_refused')          # refused with the exception the plotting loop catches: acceptable
+        elif res[0] == 'err':
             ctx.fail(case, f'finite value on a valid scale escapes as {res[1]} (float overflow/underflow in wrapPos/ctor)',
                      finding='F-C19-OVERFLOW')
         return
@@ -302,7 +304,8 @@ def corr_wrap(ctx, case, kind, lP, rP, lL, rL, v, res, reply):
     """error-bounded comparison of the float implementation with the exact model reply"""
     if res[0] == 'err':
         impl = 'err ' + res[1]
-        if res[1] in ('OverflowError',) or (res[1] == 'ValueError' and reply.startswith('ok')):
+        if res[1] in ('OverflowError',) or (res[1] in ('ValueError', 'LineTransBaseMath', 'ZeroDivisionError') and reply.startswith('ok')
+                                            and not well_conditioned(kind, lL, rL, v)):
             ctx.count('fp_overflow_not_in_model'); return       # the exact model cannot overflow/underflow: named float behaviour
         ctx.corr('wrap' + kind, case, impl, reply); return
     if not reply.startswith('ok'):
